@@ -189,7 +189,7 @@ def analyze_case(pid, case, outs, queries, stats, kinds, positions):
                     stack.append(last_obs)
                     pending = "push"
                 else:
-                    stack, pending, lists = [], "hist", {}
+                    stack, pending, lists = [], "hist", ({"low": lists["low"]} if "low" in lists else {})
             else:
                 pending = "query"
         elif name == "undo":
@@ -300,3 +300,106 @@ def check_moves(f4, which, line, lists, queries, stats, level0):
             return f"unchecked list contains a move that is not a valid piece move;fen {f4} moves {bad}"
         stats["unchecked_extra_moves_classified"] += len(set(got) - set(L))
     return None
+
+
+# ----------------------------------------------------------------------------------------- C05
+
+def expand_rows(placement):
+    rows = []
+    for row in placement.split("/"):
+        r = []
+        for ch in row:
+            r += [None] * int(ch) if ch.isdigit() else [ch]
+        rows.append(r)
+    return rows
+
+
+def compress_rows(rows):
+    out = []
+    for r in rows:
+        s, n = "", 0
+        for x in r:
+            if x is None:
+                n += 1
+            else:
+                s += (str(n) if n else "") + x
+                n = 0
+        out.append(s + (str(n) if n else ""))
+    return "/".join(out)
+
+
+def single_feature_variants(r, fen, k):
+    f = fen.split()
+    out = []
+    out.append(" ".join([f[0], "b" if f[1] == "w" else "w", f[2], "-"] + f[4:]))            # side (ep dropped: it is tied to the side)
+    rights = set(f[2]) - {"-"}
+    for c in "KQkq":
+        nr = rights ^ {c}
+        out.append(" ".join([f[0], f[1], "".join(x for x in "KQkq" if x in nr) or "-", f[3]] + f[4:]))
+    for file in "abcdefgh":
+        ep = file + ("6" if f[1] == "w" else "3")
+        if ep != f[3]:
+            out.append(" ".join([f[0], f[1], f[2], ep] + f[4:]))
+    if f[3] != "-":
+        out.append(" ".join([f[0], f[1], f[2], "-"] + f[4:]))
+    rows = expand_rows(f[0])
+    for _ in range(k):
+        ri, ci = r.randrange(8), r.randrange(8)
+        cur = rows[ri][ci]
+        if cur in ("K", "k"):
+            continue
+        choices = [None] + list("QRBNqrbn") + (list("Pp") if 0 < ri < 7 else [])
+        new = r.choice([c for c in choices if c != cur])
+        rows2 = [list(x) for x in rows]
+        rows2[ri][ci] = new
+        out.append(" ".join([compress_rows(rows2)] + f[1:]))
+    return out
+
+
+def check_c05(rep, tier):
+    n, plies = (120, 30) if tier == "quick" else (6000, 80)
+    cases = gen_cases(rep.seed, "C05", n, plies)
+    rust, _ = core.run_rust(cases)
+    stats = Counter()
+    seen = {}      # hash -> fen4
+    fens = []
+    for case, outs in zip(cases, rust):
+        for op, out in zip(case, outs):
+            if op == "obs" and out and "|" in out[0]:
+                f = out[0].split("|")
+                f4 = core.fen4(f[0])
+                stats["positions_hashed"] += 1
+                if f[1] in seen and seen[f[1]] != f4:
+                    rep.violation("impl-vs-spec", f"two different positions share the hash {f[1]}", f"{seen[f[1]]}  and  {f4}",
+                                  replay_ops=["new " + seen[f[1]] + " 0 1", "obs", "new " + f4 + " 0 1", "obs"])
+                seen.setdefault(f[1], f4)
+                fens.append(f[0])
+    stats["distinct_positions"] = len(set(seen.values()))
+    r = core.rng(rep.seed, "C05v")
+    base = list(dict.fromkeys(fens))
+    r.shuffle(base)
+    base = base[: (60 if tier == "quick" else 3000)]
+    vcases, meta = [], []
+    for f in base:
+        for v in single_feature_variants(r, f, 6):
+            vcases.append(["new " + f, "obs", "new " + v, "obs"])
+            meta.append((f, v))
+    vr, _ = core.run_rust(vcases)
+    vl, _ = core.run_lean(vcases)
+    first = None
+    for (f, v), o, ol, case in zip(meta, vr, vl, vcases):
+        stats["ops_compared"] += 4
+        if o != ol and first is None:
+            first = (case, o, ol)
+        if o[2] != ["ok"] or not o[3] or "|" not in o[3][0] or not o[1]:
+            stats["variants_refused_by_reader"] += 1
+            continue
+        h0, h1 = o[1][0].split("|")[1], o[3][0].split("|")[1]
+        stats["single_feature_variants"] += 1
+        if h0 == h1:
+            rep.violation("impl-vs-spec", f"changing one feature left the hash unchanged: {core.fen4(f)} -> {core.fen4(v)}", h0, replay_ops=case)
+        if h1 in seen and seen[h1] != core.fen4(o[3][0].split("|")[0]):
+            rep.violation("impl-vs-spec", f"two different positions share the hash {h1}", f"{seen[h1]} and {v}", replay_ops=case)
+    if first and not rep.violations:
+        rep.violation("model-vs-impl", "correspondence:C05:variants", f"impl {first[1]} model {first[2]}", replay_ops=first[0], no_input=True)
+    return stats, cases
